@@ -16,6 +16,8 @@ FORMAT_RULES = "LT01,LT02,LT03,LT04,LT05,LT06,LT07,LT08,LT09,LT10,LT11,LT12,LT13
 
 def run(ctx, coq_ok):
     js = fixjobs.jobs(ctx, ["layout", "core", "all", FORMAT_RULES, "convention", "structure", "CV11,CP01", "ambiguous,aliasing,references"], ("reparse", "events"))
+    for rs in ("all", "structure", "convention"):
+        js += fixjobs.comment_jobs(ctx, rs, ("reparse", "events"), ((),), n_quick=16, n_thorough=150)
     traces = []
     nchanged = 0
     for (d, tpl, style, label, src, rules, extra, want), st, res in corpus.pmap("harness.fixcheck", "fix_case", js):
